@@ -94,6 +94,7 @@ const (
 	LLe    = "le"    // f:<=v
 	LRange = "range" // f:[lo TO hi] / f:{lo TO hi}
 	LList  = "list"  // f:(v1 OR v2 ...)
+	LGroup = "group" // f:(E) with an arbitrary sub-query as the field's value
 )
 
 type Leaf struct {
@@ -104,6 +105,7 @@ type Leaf struct {
 	Hi    Value   `json:"hi,omitempty"`
 	Incl  bool    `json:"incl,omitempty"`
 	List  []Value `json:"list,omitempty"`
+	Sub   *Node   `json:"sub,omitempty"`
 }
 
 // Node operators
@@ -273,6 +275,10 @@ func LeafTokens(l *Leaf, valueParens bool) []string {
 			t = append(t, v.Token())
 		}
 		return append(t, ")")
+	case LGroup:
+		t := []string{l.Field, ":", "("}
+		t = append(t, Tokens(l.Sub, nil)...)
+		return append(t, ")")
 	}
 	panic("qast: bad leaf kind " + l.Kind)
 }
@@ -338,8 +344,33 @@ func BuildLeaf(l *Leaf) *expr.Expression {
 			items = append(items, v.Expr())
 		}
 		return expr.IN(f, expr.LIST(items))
+	case LGroup:
+		// an OR-chain of plain literals is a value list; anything else is the value expression
+		if items, ok := orChainOfLiterals(l.Sub); ok && len(items) > 1 {
+			return expr.IN(f, expr.LIST(items))
+		}
+		return expr.Eq(f, Build(l.Sub))
 	}
 	panic("qast: bad leaf kind " + l.Kind)
+}
+
+func orChainOfLiterals(n *Node) ([]*expr.Expression, bool) {
+	switch n.Op {
+	case OLeaf:
+		if n.Leaf.Kind != LTerm {
+			return nil, false
+		}
+		switch n.Leaf.Val.Kind {
+		case VWord, VInt, VFloat, VQuoted:
+			return []*expr.Expression{n.Leaf.Val.Expr()}, true
+		}
+		return nil, false
+	case OOr:
+		l, ok1 := orChainOfLiterals(n.L)
+		r, ok2 := orChainOfLiterals(n.R)
+		return append(l, r...), ok1 && ok2
+	}
+	return nil, false
 }
 
 // Describe is a compact structural rendering used in messages and signatures.
